@@ -490,6 +490,61 @@ Definition unlink (s : state) (o : nat) : res unit :=
 Definition copy_obj (s : state) (o : nat) : res nat :=
   with_obj s o (fun ob => let (n, s1) := push_obj s ob in Ok n s1).
 
+(* accessor copies (since ac06f87 / 91d1617): data(arg), grid(arg), unlink(), matrix(arg) work on a shallow copy whose
+   _parameters dict is a private copy; condition(...) / grid(arg) of a composite also copy the members one level *)
+Definition private_copy (s : state) (o : nat) : res nat :=
+  with_obj s o (fun ob =>
+    let (d, s1) := new_pd s (get_pd s (o_pd ob)) in
+    let (n, s2) := push_obj s1 (set_pdid ob d) in Ok n s2).
+Fixpoint copy_all (s : state) (l : list nat) : res (list nat) :=
+  match l with
+  | [] => Ok [] s
+  | o :: r => bind (copy_obj s o) (fun n s1 => bind (copy_all s1 r) (fun ns s2 => Ok (n :: ns) s2))
+  end.
+Definition copy_with_transforms (s : state) (o : nat) : res nat :=
+  with_obj s o (fun ob =>
+    match copy_all s (o_members ob) with
+    | Er e _ => Er e s
+    | Ok ns s1 => let (n, s2) := push_obj s1 (set_members ob ns) in Ok n s2
+    end).
+Definition accessor_copy (s : state) (o : nat) (private : bool) : res nat :=
+  with_obj s o (fun ob =>
+    match o_kind ob with
+    | KSeq => copy_with_transforms s o
+    | _ => if private then private_copy s o else copy_obj s o
+    end).
+
+(* t.data(arg): conditioned on nothing, a private copy holding arg *)
+Definition data_new (s : state) (o : nat) (p : P) (isparam : bool) : res nat :=
+  with_obj s o (fun ob =>
+    match o_kind ob with
+    | KSeq => Er AttrErr s
+    | k =>
+      match get_params s ob with
+      | None => Er AttrErr s
+      | Some pv =>
+        if negb (fits k p (o_grid ob)) then Er ValueErr s else
+        match private_copy s o with
+        | Er e _ => Er e s
+        | Ok n s1 =>
+          match (if is_callable pv
+                 then with_obj s1 n (fun obn => match o_p obn with
+                                               | Some _ => Ok tt (set_obj s1 n (set_p obn None))
+                                               | None => Er AttrErr s1 end)
+                 else Ok tt s1) with
+          | Er e _ => Er e s
+          | Ok _ s2 =>
+            let (r, s3) := new_ten s2 p in
+            let keep := match pv with VTen _ true => true | _ => false end in
+            match set_params s3 n (SetTen r (keep || isparam)) with
+            | Er e _ => Er e s
+            | Ok _ s4 => Ok n (clear_buffers s4 n)
+            end
+          end
+        end
+      end
+    end).
+
 Definition u_content (s : state) (u : ubuf) : P := match u_src u with Alias r => tval s r | Snap p => p end.
 
 Definition inverse1 (s : state) (o : nat) (link upd : bool) : res nat :=
@@ -582,6 +637,8 @@ Inductive op :=
 | GridSet (o : nat) (g : G)
 | CondSet (o : nat) (c : C)
 | CondNew (o : nat) (c : C)          (* t.condition(c) / t.condition(c=...): conditioned shallow copy *)
+| GridNew (o : nat) (g : G)          (* t.grid(g): copy with a private _parameters dict, then grid_ *)
+| DataNew (o : nat) (p : P) (isparam : bool)   (* t.data(arg) *)
 | Reset (o : nat)
 | Update (o : nat)
 | Call (o : nat)
@@ -604,7 +661,11 @@ Definition step (s : state) (x : op) : state * outcome :=
   | Edit o p => fin (edit s o p) (fun _ => Done)
   | GridSet o g => fin (grid_set s o g) (fun _ => Done)
   | CondSet o c => fin (cond_set s o c) (fun _ => Done)
-  | CondNew o c => fin (bind (copy_obj s o) (fun n s1 => cond_set s1 n c)) (fun _ => Done)
+  | CondNew o c => fin (match bind (accessor_copy s o false) (fun n s1 => cond_set s1 n c) with
+                        | Er e _ => Er e s | r => r end) (fun _ => Done)
+  | GridNew o g => fin (match bind (accessor_copy s o true) (fun n s1 => grid_set s1 n g) with
+                        | Er e _ => Er e s | r => r end) (fun _ => Done)
+  | DataNew o p ip => fin (data_new s o p ip) (fun _ => Done)
   | Reset o => fin (reset s o) (fun _ => Done)
   | Update o => fin (update s o) (fun _ => Done)
   | Call o => fin (call s o) (fun l => Out l None)
